@@ -553,8 +553,13 @@ impl<'a> Renderer<'a> {
                 };
                 self.line(&t, true)
             }
+            Op::Filler(k) if k % 12 == 11 => {
+                // pushing onto a variable that holds a plain number
+                self.line("Put 7 into Lone", true);
+                self.line("Rock Lone with 8", true)
+            }
             Op::Filler(k) => {
-                let t = match k % 11 {
+                let t = match k % 12 {
                     6 => "Cut \"a,b,c\" into Pieces with \",\"",
                     7 => "Cast \"42\" into Numeral",
                     8 => "Turn up Junk",
